@@ -37,6 +37,10 @@ CHECKS["C03"]=dict(cat="proof",tech="contract-based deductive verification: cont
    text="Symbol.Readably is proved to put a symbol between pipes whenever any of its bytes needs them (all lengths, all bytes), Fixnum/Bignum.Readably to write exactly the radix prefix of the base the digits are written in for every base and radix setting, and the per-byte lemmas state that a byte the printer leaves unquoted lexes as part of a plain token and that every byte inside pipes is kept by the reader; failing bytes are replayed by printing and re-reading a symbol that contains them.",
    note="Digit conversion and its inverse (strconv, math/big, the reader's number parser) are assumed; floats, ratios, strings, characters, vectors/arrays and the pretty printer are not under contract.",
    ref="DESIGN 3 C03, families B, T")
+CHECKS["C02"]=dict(cat="proof",tech="contract-based deductive verification: sequence postcondition on reader.makeToken, on-store assertions (every store to reader.carry in read extends the carried bytes by exactly the pending window of the block; the escape buffer is empty when a string or |symbol| starts), end-of-input postcondition, on-call assertion on the stream position in cl:read; WP over go/ssa; z3",
+   text="makeToken is proved to return carried bytes followed by the block's pending window and to empty the carry (all lengths); in read every store to the carry buffer is proved to append exactly src[tokenStart:pos] to what was carried, the stores that enter string/symbol mode to happen with an empty escape buffer, and a normal return at the end of the input to leave no open form on the stack; cl:read repositions a seekable stream to start + consumed length.",
+   note="Per-arm delivery independence (the alpha refinement of DESIGN 3 C02) is not built; the window precondition tokenStart <= pos of makeToken is not established for read on the pinned tree (undecided, listed). The replay harness compares whole-text and chunked reads and ignores inputs that already fail on the pinned tree (baseline/C02.readcut.json, 81 inputs).",
+   ref="DESIGN 3 C02, families R (partial), S")
 NA={}
 m=json.load(open('/verif/MANIFEST.json'))
 m['checks']=[]
